@@ -79,6 +79,13 @@ impl Out {
     pub fn case(&mut self, input: &str, output: &str, nontrivial: bool) {
         let line = format!("{} {} => {}", self.prop, input, output);
         self.cases += 1;
+        PROGRESS.fetch_add(1, std::sync::atomic::Ordering::Relaxed);
+        if self.cases % 64 == 0 || line.len() < 400 {
+            if let Ok(mut l) = LAST_CASE.try_lock() {
+                l.clear();
+                l.push_str(&line[..line.len().min(2000)]);
+            }
+        }
         if nontrivial {
             self.nontrivial.insert(fnv(&line));
         }
@@ -183,6 +190,36 @@ pub fn log_everything() {
     static L: FormatEverything = FormatEverything;
     let _ = log::set_logger(&L);
     log::set_max_level(log::LevelFilter::Trace);
+}
+
+static PROGRESS: std::sync::atomic::AtomicU64 = std::sync::atomic::AtomicU64::new(0);
+static LAST_CASE: std::sync::Mutex<String> = std::sync::Mutex::new(String::new());
+
+/// If no case has been completed for `stall_secs` the implementation under test is stuck inside a call (an endless
+/// loop cannot be interrupted in-process): record the last completed case next to the case file and give up with
+/// exit code 97 so that the check can report it instead of waiting for its own time limit.
+pub fn start_watchdog(case_file: &str, stall_secs: u64) {
+    let path = format!("{}.hang", case_file);
+    let _ = std::fs::remove_file(&path);
+    std::thread::spawn(move || {
+        let mut last = PROGRESS.load(std::sync::atomic::Ordering::Relaxed);
+        let mut idle = 0u64;
+        loop {
+            std::thread::sleep(std::time::Duration::from_secs(5));
+            let now = PROGRESS.load(std::sync::atomic::Ordering::Relaxed);
+            if now == last {
+                idle += 5;
+            } else {
+                idle = 0;
+                last = now;
+            }
+            if idle >= stall_secs {
+                let l = LAST_CASE.lock().map(|l| l.clone()).unwrap_or_default();
+                let _ = std::fs::write(&path, format!("no case completed for {} s; last completed case ({} so far): {}\n", stall_secs, now, l));
+                std::process::exit(97);
+            }
+        }
+    });
 }
 
 pub fn silence_panics() {
